@@ -569,6 +569,8 @@ impl<T: Iterator<Item = PathEl>> Iterator for DashIterator<'_, T> {
 
     fn next(&mut self) -> Option<PathEl> {
         loop {
+            #[cfg(kurbo_verif)]
+            crate::verif_hooks::tick();
             match self.state {
                 DashState::NeedInput => {
                     if self.input_done {
